@@ -3,6 +3,7 @@ import LeptosModel.Proofs.RViewShow
 import LeptosModel.Proofs.RViewTop
 import LeptosModel.Proofs.RViewQuiet
 import LeptosModel.Proofs.RViewMRun
+import LeptosModel.Proofs.RViewErrb
 /-!
 # C04 — a mounted reactive view always settles to the render of current state
 
@@ -157,6 +158,76 @@ theorem C04_enumerate_index (s : Keyed.KState) (to : List Nat) (hs : Keyed.Wf s)
       exact hm j k hsame
     · exact tell_foldl_mem _ _ k j hsn ((hsm k j).2 ⟨hk, hjk, hsame⟩)
   · exact tell_foldl_mem _ _ k j hbn ((hbm k j).2 ⟨hjk, hk⟩)
+
+/-! ## `<ErrorBoundary>`: the boundary's effect, the register of errors, the spec
+
+The register of a boundary (`errors`, a map; here its size, every registered error having an id of its own)
+is written by `bump` only: `+1` when a `Result` leaf is built or re-run as `Err` (`throw`), `-1` when an `Err`
+leaf becomes `Ok` or its state is dropped by the task that held it (`clear`).  The theorems below are the
+balance of these writes and what the boundary's own effect does with the register; that every mounted
+view with boundaries settles to the fresh render is checked by correspondence (see props/C04.py). -/
+
+/-- the boundary's own render effect only toggles: after its re-run the region shows the fallback iff
+`errors_empty` (`v`) is false, the children's state is what it was (they are kept, not rebuilt), no
+reactive state changes and nothing is dropped -/
+theorem C04_errb_effect_toggles (e m s : Nat) (fb : Option N) (kid : RState) (v : Int) (st : St) :
+    serialize (rerunIn e v (.errb e m s fb kid) st).1 =
+        (if v != 0 then serialize kid else [.text (.lit "error")]) ∧
+      (∃ fb', (rerunIn e v (.errb e m s fb kid) st).1 = .errb e m s fb' kid) ∧
+      (rerunIn e v (.errb e m s fb kid) st).2.1.rs = st.rs ∧
+      (rerunIn e v (.errb e m s fb kid) st).2.1.zombies = st.zombies := by
+  cases fb <;> cases hb : (v != 0) <;> simp [rerunIn, hb, serialize, St.alloc]
+
+/-- a `Result` leaf keeps the register of its boundary balanced: its re-run changes the number of registered
+errors by (it is `Err` now) − (it was `Err` before), and its DOM shows the new value -/
+theorem C04_res_balance (e s : Nat) (c x : Expr) (n : N) (last : Option Int) (v : Int) (st : St) (v0 : Int)
+    (hs : st.prog[s]? = some (.sig v0)) (hlt : s < st.rs.nodes.length) :
+    envOf (rerunIn e v (.res e c x n last (some s)) st).2.1.rs s =
+        envOf st.rs s + (if (decodeRes v).isNone then 1 else 0) - (if last.isNone then 1 else 0) ∧
+      serialize (rerunIn e v (.res e c x n last (some s)) st).1 =
+        (match decodeRes v with
+         | some w => [.text (.int w)]
+         | none => [.comment]) := by
+  simp only [rerunIn, if_true]
+  cases last with
+  | none =>
+    cases hd : decodeRes v with
+    | none =>
+      simp only [bumpTo, serialize, Option.isNone_none, if_true]
+      rw [bump_val st s 0 v0 hs hlt]
+      exact ⟨by omega, trivial⟩
+    | some w =>
+      simp only [bumpTo, serialize, Option.isNone_none, Option.isNone_some, if_true, Bool.false_eq_true, if_false]
+      rw [bump_val st.alloc.2 s (-1) v0 hs hlt]
+      exact ⟨by simp only [St.alloc]; omega, trivial⟩
+  | some l =>
+    cases hd : decodeRes v with
+    | none =>
+      simp only [bumpTo, serialize, Option.isNone_none, Option.isNone_some, if_true, Bool.false_eq_true, if_false]
+      rw [bump_val st.alloc.2 s 1 v0 hs hlt]
+      exact ⟨by simp only [St.alloc]; omega, trivial⟩
+    | some w =>
+      simp only [serialize, Option.isNone_some, Bool.false_eq_true, if_false]
+      exact ⟨by omega, trivial⟩
+
+/-- … and so does its disappearance: what the task of a dropped leaf holds while the leaf is in error is the
+token of its registration (`RState.held`), and the end of that task (`releaseZombie`: `Drop for ResultState`,
+which unregisters through the hook the state was built under) takes exactly that registration back -/
+theorem C04_dropped_error_unregisters (e s : Nat) (c x : Expr) (n : N) (st : St) (v0 : Int)
+    (hs : st.prog[s]? = some (.sig v0)) (hlt : s < st.rs.nodes.length)
+    (hz : st.zombies.filter (fun z => z.1 == e) = (RState.res e c x n none (some s)).held) :
+    envOf (releaseZombie st e).rs s = envOf st.rs s - 1 := by
+  unfold releaseZombie
+  rw [hz]
+  simp only [RState.held, List.foldl_cons, List.foldl_nil, clearTok, dropState, RState.locals, killAll, dropAll]
+  exact bump_val { st with zombies := st.zombies.filter fun z => !(z.1 == e) } s (-1) v0 hs hlt
+
+/-- the spec: a fresh render of a boundary shows the fallback iff some `Result` below it (and not below a
+boundary of its own) is `Err` for the current values -/
+theorem C04_errb_render (ρ : Nat → Int) (kid : View) :
+    render ρ (.eb kid) =
+      if errL ρ (fun _ _ => none) kid [] 0 [] then [.text (.lit "error")]
+      else renderL ρ (fun _ _ => none) kid [] 0 [] := rfl
 
 /-- the special case of views without `either` (kept: `C04_untouched_nodes` is proved for this class) -/
 theorem C04_settles_leaves (p : Program) (ops : List Op) (hw : p.wf = true) (hs : allSigs p.defs = true)
@@ -386,6 +457,32 @@ example : rowProg.view.wfX 2 0 false = true ∧
     (run rowProg [.idle, .set 0 1, .idle, .set 1 5, .idle]).dom =
       renderL (run rowProg [.idle, .set 0 1, .idle, .set 1 5, .idle]).env (fun _ _ => none) rowProg.view [] 0 [] ∧
     (run rowProg [.idle, .set 0 1, .idle]).dead.length = 1 := by decide +kernel
+
+/-! an error boundary over two failing leaves and a `Show` that creates a third one later: one error
+goes away — the fallback stays; the last one goes — the children come back; the `Show` opens on failing
+content — the fallback again; it closes while its content is in error — the children again; every time the
+DOM is the fresh render -/
+
+def ebProg : Program :=
+  { defs := [.sig 1, .sig 1, .sig 0],
+    view := .elem "div" []
+      (.eb (.seq (.res (.rd true 0) (.lit 1))
+        (.seq (.res (.rd true 1) (.lit 2)) (.show (.rd true 2) (.res (.lit 1) (.lit 3)) (.text "closed"))))) }
+
+example :
+    (run ebProg [.idle]).dom = [.open "div" [], .text (.lit "error"), .close] ∧
+    (run ebProg [.idle, .set 0 0, .idle]).dom = [.open "div" [], .text (.lit "error"), .close] ∧
+    (run ebProg [.idle, .set 0 0, .idle, .set 1 0, .idle]).dom =
+      [.open "div" [], .text (.int 1), .text (.int 2), .text (.lit "closed"), .close] ∧
+    (run ebProg [.idle, .set 0 0, .idle, .set 1 0, .idle, .set 2 1, .idle]).dom =
+      [.open "div" [], .text (.lit "error"), .close] ∧
+    (run ebProg [.idle, .set 0 0, .idle, .set 1 0, .idle, .set 2 1, .idle, .set 2 0, .poll 0, .poll 0, .idle]).dom =
+      [.open "div" [], .text (.int 1), .text (.int 2), .text (.lit "closed"), .close] ∧
+    (∀ ops ∈ [[Op.idle], [.idle, .set 0 0, .idle], [.idle, .set 0 0, .idle, .set 1 0, .idle],
+        [.idle, .set 0 0, .idle, .set 1 0, .idle, .set 2 1, .idle],
+        [.idle, .set 0 0, .idle, .set 1 0, .idle, .set 2 1, .idle, .set 2 0, .poll 0, .poll 0, .idle]],
+      ready (run ebProg ops) = [] ∧ (run ebProg ops).dom = render (run ebProg ops).env ebProg.view) := by
+  decide +kernel
 
 /-! non-vacuity: a program with a reactive attribute, class, style and two dynamic texts with a
 dynamic dependency; a history with partial polling; the hypotheses hold, the DOM changes -/
